@@ -120,13 +120,10 @@ class PathNode(ConfigList):
         elif ref_point == 'parent':
             if self.ayns.source_file is None:
                 raise ValueError('!path node with :parent reference requires to know source file of the node, but the node is missing this information')
+            # climb from the folder of the file one '..' at a time (normalized below): unlike indexing "parents",
+            # this also works for a file reached by a relative name with '..' components
             src = pathlib.Path(self.ayns.source_file)
-            if ref_point_args >= len(src.parents):
-                diff = ref_point_args - len(src.parents) + 1
-                ref_point_args = len(src.parents) - 1
-                args = ['..'] * diff + args
-
-            ret = src.parents[ref_point_args].joinpath(*args)
+            ret = src.parent.joinpath(*(['..'] * ref_point_args), *args)
         elif ref_point == 'abs':
             ret = pathlib.Path(ref_point_args).joinpath(*args)
         else:
